@@ -494,6 +494,16 @@ func genJBL(rnd *rand.Rand, thorough bool) (jblCase, map[string]bool) { //nolint
 		for _, s := range stops {
 			atStop = atStop || s == l.count
 		}
+		if l.count > 0 && l.count%65536 == 0 && probesLeft > 3 {
+			// the length counter reads 0 with the buffer full: non-removing looks that do not depend on it
+			// must still find what is buffered (and Peek answers as on an empty buffer)
+			probesLeft -= 3
+			i := rnd.Intn(len(oldSq))
+			for _, o := range []opJ{{K: "peekseq", A: oldSq[i]}, {K: "peek", A: 1}, {K: "peek"}} {
+				res := l.do(o)
+				b["at-length-0-"+o.K+"-"+res.K] = true
+			}
+		}
 		if atStop || rnd.Intn(3) == 0 {
 			for k := rnd.Intn(3); k >= 0; k-- {
 				probe()
@@ -612,7 +622,18 @@ func genPQL(rnd *rand.Rand, thorough bool) (pqlCase, map[string]bool) {
 			}
 		}
 	}
-	for count < target && !l.r.dead {
+	// fill to the target, look (which may remove elements), top up to the target again: the count at the Clear is
+	// the target
+	for looked := false; !l.r.dead; {
+		if count >= target {
+			if looked {
+				break
+			}
+			looked = true
+			probe("")
+
+			continue
+		}
 		n := target - count
 		if rnd.Intn(3) != 0 && n > 10 {
 			n = 1 + int64(rnd.Intn(int(n)))
@@ -631,11 +652,17 @@ func genPQL(rnd *rand.Rand, thorough bool) (pqlCase, map[string]bool) {
 		l.do(o)
 		count += n
 		pr = (pr + n*d) & 0xFFFF
-		if rnd.Intn(3) == 0 {
+		if count%65536 == 0 {
+			for _, o := range []opJ{{K: "qlen"}, {K: "qfind", A: prios[rnd.Intn(len(prios))]}} {
+				res := l.do(o)
+				b["at-length-0-"+o.K+"-"+res.K] = true
+			}
+		}
+		if !looked && rnd.Intn(3) == 0 {
 			probe("")
 		}
 	}
-	probe("")
+	l.do(opJ{K: "qlen"})
 	if count >= 65536 {
 		b["clear-at>=2^16"] = true
 	}
@@ -686,4 +713,14 @@ func scriptedJBL() []jblCase {
 			opJ{K: "push", A: 65499, B: 3}, opJ{K: "head"}, opJ{K: "pop", N: 3},
 			opJ{K: "pushrun", N: 4, A: 1, D: 1, B: 3, E: 1}, opJ{K: "peek"}, opJ{K: "clear"}), asks(65500, 65499, 2)),
 	}
+}
+
+// scriptedPQL: exactly 2^16 queued (the counter reads 0), Clear, then every request for what was queued.
+func scriptedPQL() []pqlCase {
+	return []pqlCase{{Lops: []opJ{
+		{K: "qpushrun", N: 65536, A: 65535, D: 65535, B: 3, E: 1, C: 1000, F: 1},
+		{K: "qlen"}, {K: "qfind", A: 65535}, {K: "qfind", A: 7}, {K: "qclear"}, {K: "qlen"},
+		{K: "qfind", A: 65535}, {K: "qfind", A: 7}, {K: "qfind"}, {K: "qpopat", A: 40000}, {K: "qpopts", A: 1000},
+		{K: "qpop"}, {K: "qpushrun", N: 3, A: 9, D: 1, B: 1, E: 1, C: 5, F: 5}, {K: "qlen"}, {K: "qpop", N: 4}, {K: "qlen"},
+	}}}
 }
